@@ -33,7 +33,11 @@ def urls_from_text(string):
             if "](" in url:
                 remainder, url = url.split("](", 1)
                 markdown_target = True
-                yield remainder.strip()
+                remainder = remainder.strip()
+
+                # NOTE: what precedes "](" was only matched as part of a longer url
+                if URL_WITH_PROTOCOL_RE.match(remainder):
+                    yield remainder
 
         # NOTE: the target of a markdown link can be empty or not be an url
         if markdown_target and not url:
